@@ -312,4 +312,11 @@ Definition c_msem (m : string) (tf : option (list operand)) (recv : dval) (args 
   end.
 
 Definition c_dotsem (o : operand) (sn : list (string * option val)) (recv : dval) : comp dval := Panic P_STUCK.
-Definition c_callsem (f : val) (ds : list dval) : comp dval := Panic P_STUCK.
+(* calling a user value (e.g. a custom joiner) with generated closures among the arguments: the callee invokes each closure once,
+   in order, and is then called on the values *)
+Definition c_callsem (f : val) (ds : list dval) : comp dval :=
+  let! vs := mapM (fun d => match d with
+                            | DF g => g []
+                            | DV v => Ret v
+                            | _ => Panic P_ILLTYPED end) ds in
+  Vis (ECall f vs) (fun v => Ret (DV v)).
